@@ -31,7 +31,7 @@ def plan(ctx):
                               bounds="list or dict container (symbolic), key 0..1", desc="_set_with_op combines with deepcopy(value)"))
     for i, text in enumerate(h.EFFECT):
         obs.append(Obligation(f"effect.t{i}", "xh", "c12", "effect", param={"t": i}, timeout=T,
-                              bounds="nested list [[v0,v1],[v2]] / dict {'p':[v0],'q':v1} with symbolic leaves, symbolic mutation index, "
+                              bounds="nested list [[v0,v1],[v2]] / dict {'p':[v0],'q':v1} with symbolic leaves (also inside a host structure deepcopy cannot copy), symbolic mutation index, "
                                      "symbolic choice of host-side mutation afterwards",
                               desc=f"eval({text!r}): host objects unchanged; later host mutation invisible through stored values"))
     obs.append(Obligation("direct", "xh", "c12", "direct_mutation", param={"text": "a[i].push(w)"}, timeout=T,
